@@ -264,7 +264,12 @@ fn draw_hz(r: &mut Rng, rate: f64) -> f64 {
 
 impl Scenario for OscScenario {
     fn name(&self) -> &'static str {
-        "osc"
+        // (the same scenario is also built against the no_std feature set, see dsim-nostd-signal)
+        if cfg!(feature = "nostd") {
+            "osc-nostd"
+        } else {
+            "osc"
+        }
     }
     fn property(&self) -> &'static str {
         "C17"
@@ -311,10 +316,12 @@ impl Scenario for OscScenario {
         ]
     }
     fn runs(&self, tier: &str) -> u64 {
+        // (the no_std twin build of the same scenario runs a third of the budget)
+        let div = if cfg!(feature = "nostd") { 3 } else { 1 };
         if tier == "quick" {
-            400_000
+            400_000 / div
         } else {
-            40_000_000
+            40_000_000 / div
         }
     }
     fn run(&self, src: &mut Source, obs: &mut Observer) -> Result<(), Violation> {
